@@ -2,13 +2,15 @@ SPECIFICATION Spec
 CONSTANTS
   Roles = {TRUE, FALSE}
   RequireMI = TRUE
+  Dispatch = "class"
+  Methods = {"binding", "other"}
+  Priorities = {TRUE, FALSE}
   ForgedAuth = {"none", "wrong", "trunc"}
   Usernames = {"ok", "other"}
   MaxTx = 3
   MaxTicks = 1
   Timers = FALSE
   MaxHist = 99
-CONSTRAINT Bound
 VIEW View
 ACTION_CONSTRAINT EmitBehaviour
 CHECK_DEADLOCK FALSE
